@@ -438,6 +438,37 @@ Qed.
 Definition wit_ops : list eop :=
   [Adv 15000000000; UpdPos 15; Adv 15000000000; UpdPos 1515].
 
+Lemma wit_ops_no_wrap : no_wrap wit_ops 0.
+Proof.
+  unfold wit_ops. cbn [no_wrap clock_step]. unfold wadd64, U64.
+  repeat split; try exact I; cbn; reflexivity.
+Qed.
+
+Lemma wit_ops_evs : forall len, bar_evs wit_ops 0 (bar_new Rar len 0) = wit_evs.
+Proof.
+  intros len. unfold wit_ops, wit_evs. cbn [bar_evs bar_evs_step clock_step app].
+  change (wadd64 0 15000000000) with 15000000000%N.
+  change (wadd64 15000000000 15000000000) with 30000000000%N. reflexivity.
+Qed.
+
+Lemma wit_ops_clock : forall len, snd (run_state Rar wit_ops 0 (bar_new Rar len 0)) = 30000000000%N.
+Proof.
+  intros len. unfold wit_ops. cbn [run_state clock_step snd].
+  change (wadd64 0 15000000000) with 15000000000%N.
+  change (wadd64 15000000000 15000000000) with 30000000000%N. reflexivity.
+Qed.
+
+Lemma wit_ops_est : forall len, b_est (fst (run_state Rar wit_ops 0 (bar_new Rar len 0))) = wit_e.
+Proof.
+  intros len. destruct (bar_after len 0%N wit_ops wit_ops_no_wrap) as (_ & He & _).
+  rewrite wit_ops_evs, wit_state in He. exact He.
+Qed.
+
+Lemma wit_ops_fields : forall len,
+  let b := fst (run_state Rar wit_ops 0 (bar_new Rar len 0)) in
+  b_done b = false /\ b_len b = len /\ b_pos b = 1515%N /\ b_started b = 0%N.
+Proof. intros len. repeat split; reflexivity. Qed.
+
 Theorem bar_stall_decay_refuted :
   exists len t0 ops gap,
     no_wrap ops t0 /\
@@ -447,24 +478,10 @@ Theorem bar_stall_decay_refuted :
     bar_per_sec Rar b now < bar_per_sec Rar b (now + gap).
 Proof.
   exists (Some 100000%N), 0%N, wit_ops, 500000000%N.
-  assert (Hn : no_wrap wit_ops 0).
-  { unfold wit_ops. cbn [no_wrap clock_step]. unfold wadd64, U64.
-    repeat split; try exact I; cbn; reflexivity. }
-  split; [exact Hn|]. cbv zeta.
-  destruct (bar_after (Some 100000%N) 0%N wit_ops Hn) as (_ & He & _).
-  assert (Hev : bar_evs wit_ops 0 (bar_new Rar (Some 100000%N) 0) = wit_evs).
-  { unfold wit_ops, wit_evs. cbn [bar_evs bar_evs_step clock_step app].
-    change (wadd64 0 15000000000) with 15000000000%N.
-    change (wadd64 15000000000 15000000000) with 30000000000%N. reflexivity. }
-  rewrite Hev, wit_state in He.
-  assert (Hnow : snd (run_state Rar wit_ops 0 (bar_new Rar (Some 100000%N) 0)) = 30000000000%N).
-  { unfold wit_ops. cbn [run_state clock_step snd].
-    change (wadd64 0 15000000000) with 15000000000%N.
-    change (wadd64 15000000000 15000000000) with 30000000000%N. reflexivity. }
-  rewrite Hnow.
-  assert (Hd : b_done (fst (run_state Rar wit_ops 0 (bar_new Rar (Some 100000%N) 0))) = false)
-    by reflexivity.
-  split; [exact Hd|]. unfold bar_per_sec. rewrite Hd, He. cbn [start_time prev_time].
+  split; [exact wit_ops_no_wrap|]. cbv zeta.
+  destruct (wit_ops_fields (Some 100000%N)) as (Hd & _).
+  rewrite wit_ops_clock. split; [exact Hd|].
+  unfold bar_per_sec. rewrite Hd, wit_ops_est. unfold wit_e at 1 2. cbn [start_time prev_time].
   split; [lia|]. split; [lia|].
   change (30000000000 + 500000000)%N with 30500000000%N. exact wit_rise.
 Qed.
@@ -596,3 +613,67 @@ Qed.
 Lemma rewind_is_restart : forall new now (e : est R), (new < prev_steps e)%N ->
   est_record Rar new now e = bar_reset_est Rar now new e.
 Proof. intros new now e H. rewrite est_record_rewind by exact H. reflexivity. Qed.
+
+(** * Small facts used by the non-vacuity examples of props/C09.v *)
+Lemma eta_zero_cases : forall (A : arith) (b : bar (T A)) now,
+  b_done b = true \/ b_len b = None \/ is_zero A (est_sps A (b_est b) now) = true ->
+  bar_eta A b now = Some 0%N.
+Proof.
+  intros A b now [H | [H | H]]; [now apply eta_done | now apply eta_no_len | now apply eta_no_rate].
+Qed.
+
+Lemma wit_sps_value : est_sps Rar wit_e 30000000000 = 8199 / 99.
+Proof.
+  unfold wit_e. rewrite est_sps_R. cbn [sm dsm prev_time start_time].
+  change (30000000000 - 30000000000)%N with 0%N.
+  change (30000000000 - 0)%N with 30000000000%N.
+  rewrite secs_0, secs_30, W_0, W_30. unfold sps_R. lra.
+Qed.
+
+(** the state after one 15 s segment at 1 step/s: smoothed = double_smoothed = 0.9 *)
+Lemma wit1_state :
+  est_run [ERec 15 15000000000] (est_new Rar 0) = (mkEst (9 / 10) (9 / 10) 15%N 15000000000%N 0%N : est R).
+Proof.
+  cbn [est_run est_ev]. rewrite est_record_accept by (cbn; lia).
+  unfold rec_d, rec_s, seg_rate. cbn [sm dsm prev_steps prev_time start_time est_new].
+  change (15000000000 - 0)%N with 15000000000%N. change (15 - 0)%N with 15%N.
+  rewrite secs_15, W_15, fzero_R. cbn [Z.of_N]. f_equal; field.
+Qed.
+
+Lemma wit_segs_le_100 : segs_ok (fun x => x <= 100) wit_evs (est_new Rar 0).
+Proof.
+  unfold wit_evs. cbn [segs_ok]. split; [|split; [|exact I]].
+  - intros _ _. unfold seg_rate. cbn [prev_steps prev_time est_new].
+    change (15000000000 - 0)%N with 15000000000%N. change (15 - 0)%N with 15%N.
+    rewrite secs_15. cbn [Z.of_N]. lra.
+  - cbn [est_ev]. assert (E := wit1_state). cbn [est_run est_ev] in E. rewrite E.
+    intros _ _. unfold seg_rate. cbn [prev_steps prev_time].
+    change (30000000000 - 15000000000)%N with 15000000000%N. change (1515 - 15)%N with 1500%N.
+    rewrite secs_15. cbn [Z.of_N]. lra.
+Qed.
+
+(** four samples on the line pos = 2 * t with gaps 1.5 s, 0.5 s, 4.5 s, 0.5 s *)
+Definition line_evs : list ev :=
+  [ERec 3 1500000000; ERec 4 2000000000; ERec 13 6500000000; ERec 14 7000000000].
+
+Lemma line_evs_on_line : on_line 2 0 0 0 /\ Forall (ev_on_line 2 0) line_evs.
+Proof.
+  split.
+  - unfold on_line, secs. cbn [Z.of_N]. lra.
+  - unfold line_evs.
+    repeat (apply Forall_cons; [unfold ev_on_line, on_line, secs; cbn [ev_pos ev_time Z.of_N]; lra|]).
+    apply Forall_nil.
+Qed.
+
+Lemma line_evs_run :
+  hist_ok line_evs (est_new Rar 0) /\
+  prev_time (est_run line_evs (est_new Rar 0)) = 7000000000%N /\
+  start_time (est_run line_evs (est_new Rar 0)) = 0%N.
+Proof.
+  unfold line_evs. cbn [hist_ok est_run ev_time est_ev].
+  rewrite (est_record_accept 3 1500000000) by (cbn; lia).
+  rewrite (est_record_accept 4 2000000000) by (cbn; lia).
+  rewrite (est_record_accept 13 6500000000) by (cbn; lia).
+  rewrite (est_record_accept 14 7000000000) by (cbn; lia).
+  cbn [prev_time start_time est_new]. repeat split; lia.
+Qed.
